@@ -20,8 +20,12 @@
    every object, its position (list of child numbers from the root) in the tree it was built
    from, so "the looked-up object is the live object of the working tree" is expressible.
 
+   push_state / set_state copy a tree with copy.deepcopy (since /repo d2d0b2d; before, with a
+   self-fetch, finding F23): a value copy, which is the tree itself here.
+
    [fixed] selects the repaired pop_state/set_state (cache invalidated); [fixed = false] is
-   the code as it is (finding F12). *)
+   pop_state/set_state as they were before the repair of finding F12 (kept for the refutation
+   theorem C20_refuted_pop_stale). *)
 From Coq Require Import List Ascii String Bool Arith ZArith Lia.
 From Phil Require Import Base Tree.
 Import ListNotations.
@@ -233,21 +237,16 @@ Section IndexMachine.
     | OOk new => rebuild_then (set_working s new) (fun s2 => (invalidate s2, ONone))
     end.
 
-  Definition push (s:state) : ores state :=
-    match fetch (working s) [] with
-    | OErr e => OErr e
-    | OOk c => OOk (set_states s (states s ++ [c]))
-    end.
+  (* push_state: self._states.append(copy.deepcopy(self.working_phil)).  A tree is modelled by its
+     content, so the deep copy is the tree itself; no library function is called and nothing can raise *)
+  Definition push (s:state) : state := set_states s (states s ++ [working s]).
 
   (* rest of update_from_python once python_object (p) is chosen: push_state, format, rebuild_index *)
-  Definition ufp_tail (po:option py) (p:py) (s1:state) : state * out :=
-    match push s1 with                                   (* self.push_state() *)
-    | OErr e => (s1, match po with None => ORefused e | Some _ => OBroke e end)
-    | OOk s2 =>
-        match format master p with
-        | OErr e => (s2, OBroke e)
-        | OOk t => rebuild_then (set_working s2 t) (fun s3 => (s3, ONone))
-        end
+  Definition ufp_tail (p:py) (s1:state) : state * out :=
+    let s2 := push s1 in                                 (* self.push_state() *)
+    match format master p with
+    | OErr e => (s2, OBroke e)
+    | OOk t => rebuild_then (set_working s2 t) (fun s3 => (s3, ONone))
     end.
 
   Definition step (fixed:bool) (s:state) (o:op) : state * out :=
@@ -268,13 +267,9 @@ Section IndexMachine.
                | None => match params s with Some p => Some (p, s) | None => None end
                end) with
         | None => (s, ORet false)
-        | Some (p, s1) => ufp_tail po p s1
+        | Some (p, s1) => ufp_tail p s1
         end
-    | Push =>
-        match push s with
-        | OErr e => (s, ORefused e)
-        | OOk s1 => (s1, OIdx (length (states s1) - 1))
-        end
+    | Push => let s1 := push s in (s1, OIdx (length (states s1) - 1))
     | Pop =>
         match states s with
         | [] => (s, ORet false)
@@ -291,13 +286,10 @@ Section IndexMachine.
             match nth_error (states s) (Z.to_nat i) with
             | None => (s, ORefused (s_ "IndexError"))
             | Some t =>
-                match fetch t [] with
-                | OErr e => (s, ORefused e)
-                | OOk c =>
-                    let s1 := set_working s c in
-                    let s2 := if fixed then invalidate s1 else s1 in
-                    rebuild_then s2 (fun s3 => (s3, ORet true))
-                end
+                (* self.working_phil = copy.deepcopy(self._states[index]) *)
+                let s1 := set_working s t in
+                let s2 := if fixed then invalidate s1 else s1 in
+                rebuild_then s2 (fun s3 => (s3, ORet true))
             end
         end
     | GetPy make_copy =>
